@@ -3,7 +3,7 @@
 
 use fuse_backend_rs::abi::fuse_abi::Opcode;
 
-//@inputs x:u32
+//@inputs canary_must_fail: x:u32
 #[kani::proof]
 fn canary_must_fail() {
     let x: u32 = kani::any();
